@@ -79,7 +79,7 @@ func showRaw(nodes []*gorums.RawNode) string {
 func cfgMain(args []string) {
 	cf := commonFlags("cfg", args, nil)
 	start := time.Now()
-	sum := newSum("cfg", cf.seed, "cases = operation sequences (length 1..12) over {node list, node map, node IDs, And, Except, WithoutNodes, WithNewNodes} on one manager, over a universe of 24 addresses with 4 FNV-1a collision pairs, "+
+	sum := newSum("cfg", cf.seed, "cases = operation sequences (length 1..12) over {node list, node map, node IDs, And, Except, WithoutNodes, WithNewNodes} on one manager, over a universe of 30 addresses (IPv4 with 4 FNV-1a collision pairs, IPv6, and link-local IPv6 addresses that differ only in their zone), "+
 		"with duplicates, overlapping operands, re-bound IDs, through the raw API and through dev.Manager.NewConfiguration; every operation is one evaluation; "+
 		"distinct non-trivial = distinct (op kind, ok/err, has duplicates, has collision or conflict, result size bucket) tuples other than a plain successful creation without duplicates")
 	r := rng(cf.seed, "cfg")
@@ -91,6 +91,8 @@ func cfgMain(args []string) {
 	for i := 0; len(universe) < 24; i++ {
 		universe = append(universe, fmt.Sprintf("127.0.%d.%d:%d", i/4, 1+i%4, 9000+i))
 	}
+	// canonical IPv6 literals; the zone is part of a link-local address: three distinct nodes on one port
+	universe = append(universe, "[::1]:9100", "[2001:db8::1]:9101", "[2001:db8::2]:9101", "[fe80::1%eth0]:9102", "[fe80::1%eth1]:9102", "[fe80::1]:9102")
 	var lines []string
 	type pending struct {
 		id    string
